@@ -10,18 +10,29 @@ def uw(l):
     return d
 
 
+# A SelectSupport holds three packed IntVectors whose lengths and widths depend on the (symbolic)
+# bits: LOADING one means allocations of symbolic size, which CBMC does not survive (measured:
+# > 25 min in symbolic execution at 1 bit). So for vectors with symbolic bits only the rank support
+# (concrete size) is written before the load; select supports are written for the 0-bit vector
+# (everything concrete) and are otherwise built after the load, on both sides.
 for l in (0, 1, 2, 7):
-    for mask in range(8):
+    masks = range(8) if l == 0 else (0, 1)
+    for mask in masks:
         for order in range(6):
-            quick = (l == 1 and (mask, order) in ((0, 0), (1, 3), (2, 5), (5, 1), (7, 2))) or (l == 0 and mask == 7 and order == 0)
-            tier = 'quick' if quick else 'thorough'
-            if l == 7 and not (order in (0, 4)):
+            quick = l == 0 and (mask, order) in ((7, 0), (0, 3), (5, 1))
+            if l >= 2 and order not in (0, 4):
                 continue
-            inst(P, 'c19_supports_l%d_m%d_o%d' % (l, mask, order), 'c19::supports(%d, %d, %d)' % (l, mask, order), tier=tier, unwind=26, unwindset=uw(l),
+            inst(P, 'c19_supports_l%d_m%d_o%d' % (l, mask, order), 'c19::supports(%d, %d, %d)' % (l, mask, order), tier='quick' if quick else 'thorough', unwind=26, unwindset=uw(l),
                  stubs=ALLOC, cap=1200, cap_thorough=5400, mem=14, weight=10 * l + bin(7 - mask).count('1'),
                  desc='BitVector %d symbolic bits written with support subset %d (1 rank, 2 select, 4 select_zero), loaded, rest enabled in order %d: equals the fully enabled original; idempotent; bits unchanged' % (l, mask, order),
                  shape={'len': l, 'written_supports': mask, 'enable_order': order})
-for (l, mask, tier) in ((65, 1, 'quick'), (1, 7, 'quick'), (2, 7, 'thorough'), (65, 0, 'thorough'), (7, 7, 'thorough')):
+for (l, tier) in ((1, 'thorough'), (65, 'thorough'), (513, 'thorough')):
+    for written in (False, True):
+        inst(P, 'c19_rank_support_l%d_%s' % (l, 'written' if written else 'absent'), 'c19::rank_support(%d, %s)' % (l, 'true' if written else 'false'), tier=tier, unwind=26,
+             unwindset={r'RankSupport::new$#0': 10, r'RankSupport::new$#1': 5, r'memcmp': 200, r'c01::any_bits': 20}, cap=900, cap_thorough=3600, mem=30,
+             desc='BitVector %d symbolic bits, rank support %s at write time: loaded copy reports it, ==, enable_rank on both sides ==, idempotent, rank(i) exact for all usize i' % (l, 'present' if written else 'absent'),
+             shape={'len': l, 'rank_written': written})
+for (l, mask, tier) in ((65, 1, 'quick'), (0, 7, 'quick'), (65, 0, 'thorough'), (513, 1, 'thorough')):
     inst(P, 'c19_skip_supports_l%d_m%d' % (l, mask), 'c19::skip_supports(%d, %d)' % (l, mask), tier=tier, unwind=26, unwindset=uw(l), stubs=ALLOC if mask & 6 else [],
          cap=1200, mem=14, desc='skip_option over the three optional supports of a serialized BitVector (%d bits, supports %d) lands exactly on the next value' % (l, mask),
          shape={'len': l, 'written_supports': mask})
@@ -29,4 +40,4 @@ for (l, mask, tier) in ((65, 1, 'quick'), (1, 7, 'quick'), (2, 7, 'thorough'), (
 extra(P, assumptions=['real RankSupport / SelectSupport construction (both on the original and on the loaded copy); R2 allocation stubs where a SelectSupport is built',
                       'embedding structures loading from support-free parts: C04 (wavelet matrix), C02/C07 (sparse) use specification stubs that fail when a needed support was never enabled'],
       options={'no_reach': True},
-      coverage={'outside_bounds': ['bitvectors longer than 7 bits when a select support is involved', 'interleaving serialize/load more than once']})
+      coverage={'outside_bounds': ['select supports WRITTEN before the load for non-empty vectors (loading them allocates symbolic sizes); they are built after the load instead', 'bitvectors longer than 7 bits when a select support is involved', 'interleaving serialize/load more than once']})
